@@ -188,75 +188,3 @@ Lemma regroup16 t00 t01 t02 t03 t10 t11 t12 t13 t20 t21 t22 t23 t30 t31 t32 t33 
   = N.lxor r0 (N.lxor r1 (N.lxor r2 r3)).
 Proof. intros <- <- <- <-. xor_solve. Qed.
 
-Definition q (c0 d0 c1 d1 c2 d2 c3 d3 a : N) : N :=
-  N.lxor (gmul c0 (gmul d0 a)) (N.lxor (gmul c1 (gmul d1 a)) (N.lxor (gmul c2 (gmul d2 a)) (gmul c3 (gmul d3 a)))).
-Lemma coef_ids_prop a : a < 256 ->
-  (q 14 2 11 1 13 1 9 3 a = a /\ q 14 3 11 2 13 1 9 1 a = 0 /\ q 14 1 11 3 13 2 9 1 a = 0 /\ q 14 1 11 1 13 3 9 2 a = 0) /\
-  (q 2 14 3 9 1 13 1 11 a = a /\ q 2 11 3 14 1 9 1 13 a = 0 /\ q 2 13 3 11 1 14 1 9 a = 0 /\ q 2 9 3 13 1 11 1 14 a = 0).
-Proof.
-  intro H. pose proof (coef_ids_ok a H) as E. unfold coef_ids in E. unfold q.
-  rewrite !andb_true_iff in E. rewrite !N.eqb_eq in E. tauto.
-Qed.
-
-Ltac row_solve Ea Eb Ec Ed :=
-  match type of Ea with ?A = _ => match type of Eb with ?B = _ =>
-  match type of Ec with ?C = _ => match type of Ed with ?D = _ =>
-    transitivity (N.lxor A (N.lxor B (N.lxor C D)));
-    [xor_solve | rewrite Ea, Eb, Ec, Ed; rewrite ?N.lxor_0_r, ?N.lxor_0_l; reflexivity]
-  end end end end.
-
-Definition mrow (c0 c1 c2 c3 x0 x1 x2 x3 : N) : N :=
-  N.lxor (gmul c0 x0) (N.lxor (gmul c1 x1) (N.lxor (gmul c2 x2) (gmul c3 x3))).
-
-Lemma inv_mix_mix_col a0 a1 a2 a3 : a0 < 256 -> a1 < 256 -> a2 < 256 -> a3 < 256 ->
-  let b0 := mrow 2 3 1 1 a0 a1 a2 a3 in let b1 := mrow 1 2 3 1 a0 a1 a2 a3 in
-  let b2 := mrow 1 1 2 3 a0 a1 a2 a3 in let b3 := mrow 3 1 1 2 a0 a1 a2 a3 in
-  mrow 14 11 13 9 b0 b1 b2 b3 = a0 /\ mrow 9 14 11 13 b0 b1 b2 b3 = a1 /\
-  mrow 13 9 14 11 b0 b1 b2 b3 = a2 /\ mrow 11 13 9 14 b0 b1 b2 b3 = a3.
-Proof.
-  intros H0 H1 H2 H3. cbv zeta. unfold mrow. rewrite !gmul_lxor_r.
-  destruct (coef_ids_prop a0 H0) as [(A1&A2&A3&A4) _]. destruct (coef_ids_prop a1 H1) as [(B1&B2&B3&B4) _].
-  destruct (coef_ids_prop a2 H2) as [(C1&C2&C3&C4) _]. destruct (coef_ids_prop a3 H3) as [(D1&D2&D3&D4) _].
-  unfold q in *. repeat split.
-  - row_solve A1 B2 C3 D4.
-  - row_solve A4 B1 C2 D3.
-  - row_solve A3 B4 C1 D2.
-  - row_solve A2 B3 C4 D1.
-Qed.
-
-Lemma mix_inv_mix_col a0 a1 a2 a3 : a0 < 256 -> a1 < 256 -> a2 < 256 -> a3 < 256 ->
-  let b0 := mrow 14 11 13 9 a0 a1 a2 a3 in let b1 := mrow 9 14 11 13 a0 a1 a2 a3 in
-  let b2 := mrow 13 9 14 11 a0 a1 a2 a3 in let b3 := mrow 11 13 9 14 a0 a1 a2 a3 in
-  mrow 2 3 1 1 b0 b1 b2 b3 = a0 /\ mrow 1 2 3 1 b0 b1 b2 b3 = a1 /\
-  mrow 1 1 2 3 b0 b1 b2 b3 = a2 /\ mrow 3 1 1 2 b0 b1 b2 b3 = a3.
-Proof.
-  intros H0 H1 H2 H3. cbv zeta. unfold mrow. rewrite !gmul_lxor_r.
-  destruct (coef_ids_prop a0 H0) as [_ (A1&A2&A3&A4)]. destruct (coef_ids_prop a1 H1) as [_ (B1&B2&B3&B4)].
-  destruct (coef_ids_prop a2 H2) as [_ (C1&C2&C3&C4)]. destruct (coef_ids_prop a3 H3) as [_ (D1&D2&D3&D4)].
-  unfold q in *. repeat split.
-  - row_solve A1 B2 C3 D4.
-  - row_solve A4 B1 C2 D3.
-  - row_solve A3 B4 C1 D2.
-  - row_solve A2 B3 C4 D1.
-Qed.
-
-Lemma inv_mix_columns_mix_columns st : wf16 st -> Spec.inv_mix_columns (Spec.mix_columns st) = st.
-Proof.
-  intros H. open16 st H. spec_cbv.
-  destruct (inv_mix_mix_col a a0 a1 a2 B B0 B1 B2) as (X0&X1&X2&X3).
-  destruct (inv_mix_mix_col a3 a4 a5 a6 B3 B4 B5 B6) as (Y0&Y1&Y2&Y3).
-  destruct (inv_mix_mix_col a7 a8 a9 a10 B7 B8 B9 B10) as (Z0&Z1&Z2&Z3).
-  destruct (inv_mix_mix_col a11 a12 a13 a14 B11 B12 B13 B14) as (W0&W1&W2&W3).
-  cbv zeta in *. unfold mrow in *.
-  rewrite X0, X1, X2, X3, Y0, Y1, Y2, Y3, Z0, Z1, Z2, Z3, W0, W1, W2, W3. reflexivity.
-Qed.
-Lemma mix_columns_inv_mix_columns st : wf16 st -> Spec.mix_columns (Spec.inv_mix_columns st) = st.
-Proof.
-  intros H. open16 st H. spec_cbv.
-  destruct (mix_inv_mix_col a a0 a1 a2 B B0 B1 B2) as (X0&X1&X2&X3).
-  destruct (mix_inv_mix_col a3 a4 a5 a6 B3 B4 B5 B6) as (Y0&Y1&Y2&Y3).
-  destruct (mix_inv_mix_col a7 a8 a9 a10 B7 B8 B9 B10) as (Z0&Z1&Z2&Z3).
-  destruct (mix_inv_mix_col a11 a12 a13 a14 B11 B12 B13 B14) as (W0&W1&W2&W3).
-  cbv zeta in *. unfold mrow in *.
-  rewrite X0, X1, X2, X3, Y0, Y1, Y2, Y3, Z0, Z1, Z2, Z3, W0, W1, W2, W3. reflexivity.
-Qed.
